@@ -17,9 +17,9 @@ Theorem C01_effect :
          (bime : B -> bool) (bset_ime : B -> bool -> B) (bpending : B -> N) (back : B -> N -> B),
     (forall b a, btrig b a = b) -> (forall b, bcorrupt b = b) ->
   forall s b,
-    starts gen_tables B bime bpending s b -> wf s -> byte_bus B brd -> defined_at B brd s b ->
+    starts gen_tables B bime bpending s b -> wf s -> byte_bus B brd -> defined_at B brd bset_ime s b ->
     agrees B (run_instr gen_tables B brd bwr btrig bcorrupt bime bset_ime bpending back s b)
-             (spec_instr B brd bwr bset_ime bime bpending (arch_of s) b).
+             (spec_instr B brd bwr bset_ime bime bpending (arch_of (set_eip false s)) (commit B bset_ime s b)).
 Proof. exact instr_refines. Qed.
 Print Assumptions C01_effect.
 
@@ -35,7 +35,7 @@ Theorem C01_flags_low_nibble :
          (bime : B -> bool) (bset_ime : B -> bool -> B) (bpending : B -> N) (back : B -> N -> B),
     (forall b a, btrig b a = b) -> (forall b, bcorrupt b = b) -> byte_bus B brd ->
   forall s b,
-    starts gen_tables B bime bpending s b -> wf s -> defined_at B brd s b ->
+    starts gen_tables B bime bpending s b -> wf s -> defined_at B brd bset_ime s b ->
     wf (fst (fst (run_instr gen_tables B brd bwr btrig bcorrupt bime bset_ime bpending back s b))).
 Proof. exact run_instr_wf. Qed.
 Print Assumptions C01_flags_low_nibble.
